@@ -18,7 +18,7 @@ var (
 
 	// A line that opens a block, comments left out; among them the ones that
 	// open a block of rules (qualifiers, conditions) and not a profile
-	regBlockHeader = regexp.MustCompile(`(?m)^[\t ]*[^#\s][^\n]* {\n`)
+	regBlockHeader = regexp.MustCompile(`(?m)^[\t ]*[^#\s][^\n]*{\n`)
 	regRuleBlock   = regexp.MustCompile(`^[\t ]*(((audit|deny|allow|owner)[\t ]+)*|(if|else|})[^\n]*){\n$`)
 )
 
